@@ -78,15 +78,37 @@ var mdFieldNames = []string{"embeddedName", "embName", "en", "embeddedCount", "e
 	"uint", "uint8", "uint16", "uint32", "uint64", "float32", "float64", "bool", "boolean", "flag", "boolPtr", "dur", "duration", "ttl", "durPtr", "mdur", "mdurPtr", "durs", "dursPtr", "mdurs",
 	"strs", "strings", "list", "strsPtr", "ints", "bytes", "size", "bytesize", "sizePtr", "sizes", "nested", "nestedPtr", "map", "mapDur", "any", "time", "props", "unexported", "NoTag", "unknownKey", "", " ", "ſtr", "İnt"}
 
-var mdValues = []string{"", " ", "0", "1", "-1", "+1", "42", "007", "127", "128", "255", "256", "32767", "32768", "65535", "65536", "2147483647", "2147483648", "4294967295", "4294967296",
-	"9223372036854775807", "9223372036854775808", "-9223372036854775808", "-9223372036854775809", "18446744073709551615", "18446744073709551616", "99999999999999999999999999999",
-	"1.5", "1e3", "1e400", "-1e400", "NaN", "Inf", "-Inf", "0x10", "0b1", "0o7", "1_000", " 5", "5 ", "٣",
-	"true", "false", "TRUE", "True", "t", "T", "y", "Y", "yes", "on", "off", "no", "nope",
-	"1s", "1h30m", "-5m", "1.5h", "300ms", "1d", "1h1", "2540400h", "9223372036854775807ns", "9223372036854775808ns", "9223372037", "9223372036", "-9223372037", "PT1S", "P1D",
-	"1s,2s", "1s, 2m ,3h", ",", ",,", "1s,,2s", "1s,x", "5,10", " , ", "a,b,c", "a", "a,", ",a",
-	"1Ki", "1Mi", "1Gi", "1Ti", "1Pi", "1Ei", "8Ei", "16Ei", "1k", "1M", "1m", "1u", "1n", "1E", "1e3", "1E3", "1e-3", "1.5Gi", "0.5", ".5", "5.", "1e", "e3", "1Kii", "Ki", "-1Ki", "+1Ki", "1 Ki", "1KI",
-	"9e999999999", "1e2147483647", "1e-2147483647", "1e9223372036854775807", "9223372036854775807Ei", "99999999999999999999999999999Ei", "0.0000000000000000000000000000001n", "1e18", "1e19", "9223372036854775807", "9223372036854775808",
-	"{}", "[]", "null", `{"inner":"x"}`, `{"a":"b"}`, "a=b", "2024-01-01T00:00:00Z", "\x00", "\xff\xfe", "é", strings.Repeat("9", 400), strings.Repeat("1s,", 2000)}
+var (
+	mdNumVals = []string{"", " ", "0", "1", "-1", "+1", "42", "007", "127", "128", "255", "256", "32767", "32768", "65535", "65536", "2147483647", "2147483648", "4294967295", "4294967296",
+		"9223372036854775807", "9223372036854775808", "-9223372036854775808", "-9223372036854775809", "18446744073709551615", "18446744073709551616", "99999999999999999999999999999",
+		"1.5", "1e3", "1e400", "-1e400", "NaN", "Inf", "-Inf", "0x10", "0b1", "0o7", "1_000", " 5", "5 ", "٣"}
+	mdBoolVals = []string{"true", "false", "TRUE", "True", "t", "T", "y", "Y", "yes", "on", "off", "no", "nope", "1", "0", ""}
+	mdDurVals  = []string{"1s", "1h30m", "-5m", "1.5h", "300ms", "1d", "1h1", "2540400h", "9223372036854775807ns", "9223372036854775808ns", "9223372037", "9223372036", "-9223372037", "PT1S", "P1D", "5", "0", ""}
+	mdListVals = []string{"1s,2s", "1s, 2m ,3h", ",", ",,", "1s,,2s", "1s,x", "5,10", " , ", "a,b,c", "a", "a,", ",a", "1,2,3", "1Ki,2Ki", ""}
+	mdSizeVals = []string{"1Ki", "1Mi", "1Gi", "1Ti", "1Pi", "1Ei", "8Ei", "16Ei", "1k", "1M", "1m", "1u", "1n", "1E", "1e3", "1E3", "1e-3", "1.5Gi", "0.5", ".5", "5.", "1e", "e3", "1Kii", "Ki", "-1Ki", "+1Ki", "1 Ki", "1KI",
+		"9e999999999", "1e2147483647", "1e-2147483647", "1e-6442450943", "1e1024", "1e-1024", "1e1025", "1e-1025", "1e-4000", "1e9223372036854775807", "9223372036854775807Ei", "99999999999999999999999999999Ei",
+		"0.0000000000000000000000000000001n", "1e18", "1e19", "9223372036854775807", "9223372036854775808", "1024", "0"}
+	mdOtherVals = []string{"{}", "[]", "null", `{"inner":"x"}`, `{"a":"b"}`, "a=b", "2024-01-01T00:00:00Z", "\x00", "\xff\xfe", "é", strings.Repeat("9", 400), strings.Repeat("1s,", 2000)}
+	mdValues    = concat(mdNumVals, mdBoolVals, mdDurVals, mdListVals, mdSizeVals, mdOtherVals)
+)
+
+// mdPlausible lists values of the kind a field is meant to hold.
+func mdPlausible(key string) []string {
+	k := strings.ToLower(key)
+	switch {
+	case strings.Contains(k, "size"):
+		return mdSizeVals
+	case strings.Contains(k, "durs") || strings.Contains(k, "strs") || k == "strings" || k == "list" || k == "ints" || k == "sizes":
+		return mdListVals
+	case strings.Contains(k, "dur") || strings.Contains(k, "ttl"):
+		return mdDurVals
+	case strings.Contains(k, "bool") || k == "flag":
+		return mdBoolVals
+	case strings.Contains(k, "int") || strings.Contains(k, "float") || strings.Contains(k, "count"):
+		return mdNumVals
+	}
+	return mdValues
+}
 
 type mdCase struct {
 	Container string // how the properties are handed over
@@ -289,6 +311,10 @@ func genMDCase(rt *rapid.T) mdCase {
 			k = rapid.StringN(0, 8, -1).Draw(rt, "freeKeyText")
 		}
 		v := mdValues[pickUniform(rt, "val", len(mdValues))]
+		if rapid.IntRange(0, 3).Draw(rt, "plausible") > 0 {
+			pl := mdPlausible(k)
+			v = pl[pickUniform(rt, "plausibleVal", len(pl))]
+		}
 		if rapid.IntRange(0, 9).Draw(rt, "editVal") == 0 {
 			v = string(applyEdits([]byte(v), genEdits(rt, "val", 2, []byte("0123456789.,-+eEKMGTPi smhund")), []byte("0123456789.,-+eEKMGTPi smhund")))
 		}
@@ -317,7 +343,7 @@ func genMDCase(rt *rapid.T) mdCase {
 
 func TestMetadataDecode(t *testing.T) {
 	sec := vk.Sec(t.Name())
-	vk.Check(t, 5000, 60000, func(rt *rapid.T) {
+	vk.Check(t, 15000, 150000, func(rt *rapid.T) {
 		c := genMDCase(rt)
 		r := runMetadata(c)
 		r.class("container:" + c.Container)
@@ -398,7 +424,7 @@ func TestMetadataScalars(t *testing.T) {
 	for _, d := range durs {
 		settle(t, sec, runMDScalar(mdScalarCase{JSON: []byte(`"1s"`), D: d}), vk.FP("scalar-d", d))
 	}
-	vk.Check(t, 3000, 40000, func(rt *rapid.T) {
+	vk.Check(t, 8000, 80000, func(rt *rapid.T) {
 		c := mdScalarCase{D: rapid.Int64().Draw(rt, "d")}
 		if rapid.Bool().Draw(rt, "listed") {
 			c.JSON = []byte(rapid.SampledFrom(mdJSONs).Draw(rt, "json"))
